@@ -49,12 +49,24 @@ func unmarshalFromYaml(yamlSpecs []byte) ([]OperationSpec, error) {
 
 	dec := yaml.NewDecoder(bytes.NewReader(yamlSpecs))
 	for {
-		var doc OperationSpec
-		err := dec.Decode(&doc)
+		var raw any
+		err := dec.Decode(&raw)
 		if err == io.EOF {
 			break
 		}
 		if err != nil {
+			return nil, err
+		}
+
+		// Convert the document through JSON, so that a YAML document gives the same
+		// operation as its JSON twin: yaml.v3 decodes integers into Go ints, which the
+		// JSON decoder never produces and unstructured.DeepCopy panics on.
+		jsonDoc, err := json.Marshal(raw)
+		if err != nil {
+			return nil, err
+		}
+		var doc OperationSpec
+		if err := json.Unmarshal(jsonDoc, &doc); err != nil {
 			return nil, err
 		}
 
